@@ -255,8 +255,10 @@ def check_property(prop, tier, seed):
     cov["known_findings_reported"] = sorted(kf_lines)
     cov["explanation"] = cfg.get("explanation", "")
     ev["wall_s"] = round(time.time() - t0, 2)
-    os.makedirs(os.path.join(HERE, "evidence"), exist_ok=True)
-    with open(os.path.join(HERE, "evidence", f"{prop}.json"), "w") as f:
+    # evidence/ holds runs against /repo only; runs of my own tooling against a scratch tree (VERIF_REPO) go elsewhere
+    evdir = os.environ.get("VERIF_EVIDENCE_DIR") or (os.path.join(HERE, "evidence") if REPO == "/repo" else os.path.join(HERE, "replays", "scratch-evidence"))
+    os.makedirs(evdir, exist_ok=True)
+    with open(os.path.join(evdir, f"{prop}.json"), "w") as f:
         json.dump(ev, f, indent=1, default=str)
 
     for l in lines:
